@@ -228,6 +228,14 @@ class Symtab:
     def functions(self):
         return {a: name for a, n, k, name in self.syms if k in "tT"}
 
+    def files_of(self, addrs):
+        """source file (basename) of each function address, one addr2line call"""
+        if not addrs:
+            return []
+        rc, out = sh(["addr2line", "-e", self.lib] + ["0x%x" % a for a in addrs], timeout=120)
+        ls = out.strip().split("\n")
+        return [os.path.basename(l.split(":")[0]) for l in ls] + ["?"] * (len(addrs) - len(ls))
+
     def line_of(self, pc):
         rc, out = sh(["addr2line", "-e", self.lib, "-f", "-C", "0x%x" % pc], timeout=60)
         ls = out.strip().split("\n")
@@ -265,6 +273,9 @@ def run_ro(v, seed, iters, timeout=600):
                 canary_diff.add(sym)
             else:
                 res["diffs"].append({"symbol": sym, "offset_in_symbol": inner, "section": st.section_of(off), "bytes": int(kv["len"])})
+        elif line.startswith("CANARY "):
+            f = line.split()
+            (canary_store if f[1] == "store" else canary_diff).add(f[2])
         elif line.startswith("CRASH "):
             res["crashes"].append(line[6:])
         elif line.startswith("FUNC "):
@@ -275,7 +286,9 @@ def run_ro(v, seed, iters, timeout=600):
             res["summary"] = line
     allf = st.functions()
     res["funcs_all"] = len([n for n in allf.values() if n not in RUNTIME_FUNCS])
-    res["funcs_unreached"] = sorted(set(n for a, n in allf.items() if a not in seen and n not in RUNTIME_FUNCS))
+    miss = sorted((a, n) for a, n in allf.items() if a not in seen and n not in RUNTIME_FUNCS)
+    files = st.files_of([a for a, _ in miss])
+    res["funcs_unreached"] = sorted(set("%s (%s)" % (n, f) for (a, n), f in zip(miss, files)))
     res["funcs_seen"] = len([a for a in allf if a in seen and allf[a] not in RUNTIME_FUNCS])
     # the detector must have seen the three canary stores (one of them re-writes the same value: store, no diff)
     res["selftest_ok"] = (canary_store == set(CANARY_SYMS) and canary_diff == {"c19_canary_data", "c19_canary_bss"})
